@@ -316,7 +316,7 @@ Definition w_cs : list entry :=
   [ mk 0 (KDisc tc0 (98#100) (102#100)) 0; mk 1 (KDisc tc1 (103#100) (106#100)) 1 ].
 Definition w_res (v1 v2 : Q) : slots * bool := ([(0%nat, Some 1); (1%nat, Some v1); (2%nat, Some v2)], true).
 Definition w_state : cst :=
-  {| vars := [(0%nat, Some 0); (1%nat, Some 0)]; res := []; applied := [];
+  {| vars := [(0%nat, Some 0); (1%nat, Some 0)]; res := []; applied := []; attrs := [];
      stream := [ w_res (9817#10000) (9634#10000); w_res (9817#10000) (9891#10000); w_res (9973#10000) (10053#10000);
                  w_res (10133#10000) (10221#10000); w_res (10298#10000) (10393#10000); w_res (10469#10000) (10571#10000) ] |}.
 
@@ -351,7 +351,7 @@ Qed.
 Definition w2_cs : list entry :=
   [ mk 0 (KDisc tc0 (98#100) (102#100)) 0; Build_centry (1%nat, KConst) (Some [1]) 0 false true ].
 Definition w2_state : cst :=
-  {| vars := [(0%nat, Some 0); (1%nat, Some 0)]; res := []; applied := [];
+  {| vars := [(0%nat, Some 0); (1%nat, Some 0)]; res := []; applied := []; attrs := [];
      stream := [ w_res (9817#10000) (9300#10000); w_res (9817#10000) (9550#10000) ] |}.
 Lemma cel_off_check : unconverged_on_return 0 false w2_cs w2_state e0 = true.
 Proof. vm_compute. reflexivity. Qed.
@@ -371,7 +371,7 @@ Qed.
 Definition w3_cs : list entry :=
   [ mk 0 (KChar true 5 7 [(94#100, 1#10); (98#100, 0); (102#100, 0); (106#100, -(1#10))] (1#1000)) 0 ].
 Definition w3_state : cst :=
-  {| vars := [(7%nat, Some 0)]; res := []; applied := [(0%nat, false)];
+  {| vars := [(7%nat, Some 0)]; res := []; applied := [(0%nat, false)]; attrs := [];
      stream := [ ([(5%nat, Some (1040#1000))], true); ([(5%nat, Some (10398#10000))], true); ([(5%nat, Some (10398#10000))], true) ] |}.
 Definition last_run_vars (t : list (ev cst)) : option slots :=
   fold_left (fun acc e => match e with ERun _ s => Some (vars s) | _ => acc end) t None.
@@ -422,7 +422,7 @@ Lemma disc_band_edge_livelock :
   exists t lo up s, disc_conv t lo up s = false /\ vars (disc_step t lo up s) = vars s.
 Proof.
   exists tc0, (98#100), (102#100),
-    {| vars := [(1%nat, Some 0)]; res := [(2%nat, Some (98#100))]; applied := []; stream := [] |}.
+    {| vars := [(1%nat, Some 0)]; res := [(2%nat, Some (98#100))]; applied := []; attrs := []; stream := [] |}.
   split; reflexivity.
 Qed.
 
